@@ -351,9 +351,24 @@ def _kind(e):
     return t
 
 
+_WRAP1 = {"Sum", "Product", "BitOr", "BitXor", "BitAnd"}
+
+
+def _wrapper(e):
+    """(wrapper kind, operand) when e stands between its parent and ONE operand without an
+    operator of its own: x**1, and a one-child n-ary node (Sum((t,)), Product((t,)), ...)"""
+    if _kind(e) == "Power1":
+        return "Power1", e["a"]
+    if e["t"] in _WRAP1 and len(e["c"]) == 1 and isinstance(e["c"][0], dict):
+        return e["t"] + "1", e["c"][0]
+    return None
+
+
 def edges(e, acc=None):
     """(parent kind, child position, child kind) for every composite child; position
-    is '*' under the operand-sorting Sum / Product"""
+    is '*' under the operand-sorting Sum / Product.  An operand reached through wrappers
+    (x**1, one-child Sum / Product) is one edge parent -> 'Wrapper:...:kind of the operand'
+    (a wrapped leaf / -1 included: Product((-1,)) is 'Product1:NegConst')."""
     acc = [] if acc is None else acc
     if _kind(e) == "Power1":          # x**1 is printed as x: transparent
         return edges(e["a"], acc)
@@ -362,13 +377,17 @@ def edges(e, acc=None):
             continue
         if pos == "1" and _is_negprod(e):
             continue
-        via = ""
-        while _kind(k) == "Power1":   # the parent sees a Power node, the text shows the base
-            k = k["a"]
-            via = "Power1:"
-        if k["t"] not in _LEAF or _kind(k) == "NegConst":
+        via = []
+        w = _wrapper(k)
+        while w is not None:          # the parent sees the wrapper, the text shows the operand
+            if not via or via[-1] != w[0]:
+                via.append(w[0])
+            k = w[1]
+            w = _wrapper(k)
+        if k["t"] not in _LEAF or _kind(k) == "NegConst" or [v for v in via if v != "Power1"]:
             p = e["t"]
-            acc.append((_kind(e), "*" if p in _COMMUTATIVE else pos, via + _kind(k)))
+            acc.append((_kind(e), "*" if p in _COMMUTATIVE else pos,
+                        "".join(v + ":" for v in via) + _kind(k)))
         edges(k, acc)
     return acc
 
@@ -667,6 +686,8 @@ def run(tier, seed, out):
                 "by gcc and run in every environment; a tree with int / float constants is a case of "
                 "its own per representation of the constants (C14_CSem!Reps: Python numbers, numpy "
                 "64-bit scalars, numpy 32-bit scalars; quick: numpy on trees of <= 6 / <= 5 nodes); "
+                "x**1 and one-child Sum / Product nodes wrap every depth-1 composite in every operand "
+                "position of every operator, Product((-1,)) is offered in every operand position; "
                 "non-trivial = root is a composite node. "
                 "name half: TLC enumerates all histories of MaxGen calls over the expression pool "
                 "of C14_CCodeNames.tla on one mapper and its copies (copy / constructor / "
